@@ -292,12 +292,13 @@ CHECKS = {
             "incl. the empty pattern. from_substrings: the MIRROR model of the Aho-Corasick construction (trie with labels in insertion "
             "order, breadth-first failure links, output inheritance, goto completion loop, absorbing end state, early return for the "
             "empty pattern; the pattern set is a list = the iteration order, theorems for all lists) never fails, returns a valid DFA "
-            "and accepts exactly the words over the alphabet that end with a pattern (must_be_suffix; no hypothesis on the patterns) / "
-            "contain a pattern (patterns over the alphabet), or the complement; the language does not depend on the order; the "
+            "and accepts exactly the words over the alphabet that end with a pattern (must_be_suffix) / contain a pattern, or the "
+            "complement - for ALL pattern lists, no hypothesis (patterns with symbols outside the alphabet included; the end state is "
+            "labelled len(labels) as in the repaired code); the language does not depend on the order; the "
             "trie/failure phase satisfies the classical failure-link specification (C15_aho_corasick_links). Models tied to the code "
             "by exact table equality (the Aho-Corasick model is fed the iteration order of the very set object the implementation "
             "gets) + proved comparator (all words) + validity on every pattern of length <= 4 over 1-3 symbols, all small numeric "
-            "parameters and random pattern sets (incl. sets with the empty pattern and, in suffix mode, with symbols outside the "
+            "parameters and random pattern sets (incl. sets with the empty pattern and with symbols outside the "
             "alphabet). from_finite_language: no Coq model - judged on every run against the Coq boolean predicates on all words up "
             "to length 6-7, an independent Python predicate, and (all words) the trie built by the harness through the proved "
             "comparator. Minimality: executable is_minimal evaluated by the extracted code on every result whose docstring promises "
@@ -306,11 +307,10 @@ CHECKS = {
             "parameters (C15_constructors_minimal: universal/empty, from_subsequence, from_substring/from_suffix, from_prefix, "
             "of_length with a non-empty range and a counted symbol, nth_from_start, nth_from_end) by explicit access and distinguishing "
             "words. Not modelled: from_finite_language.",
-            "Open known finding (genuine defect, found while proving the Aho-Corasick language theorem): from_substrings "
-            "(must_be_suffix=False) with a pattern that contains a symbol outside the alphabet - end_state = len(transitions) collides "
-            "with the label of a visited trie node, e.g. DFA.from_substrings({'a'}, {'bb','aa'}) accepts 'a'; the faithful model "
-            "reproduces it (C15_from_substrings_foreign_symbol_refuted, same table as the code), the language theorem for that mode "
-            "carries the hypothesis 'patterns over the alphabet', generators avoid that shape. Fixed earlier: from_suffix / "
+            "Fixed finding (genuine defect, found while proving the Aho-Corasick language theorem; fix ae299fb): from_substrings "
+            "(must_be_suffix=False) with a pattern that contains a symbol outside the alphabet - end_state = len(transitions) collided "
+            "with the label of a visited trie node, e.g. DFA.from_substrings({'a'}, {'bb','aa'}) accepted 'a'; the reproducer stays as a "
+            "regression (language + mirror table), foreign-symbol pattern sets are generated in both modes. Fixed earlier: from_suffix / "
             "from_substring(must_be_suffix=True) with an empty pattern; from_substrings with the empty string in the set.", "7/C15"),
     "C19": ("Coq theorems about mirror models of every validate() (first failing check of the code's sequence) against declarative "
             "well-formedness of raw definitions + differential correspondence (malformed stream; operation battery in four "
